@@ -546,6 +546,9 @@ func H_C12_orders() {
 		vEnvAccept(nc)
 		v.goRun()
 	case ordAfterListen:
+		// Stop arrives while Accept is in progress; the kernel may have completed the
+		// client's connection just before the listener was closed (Accept returns it)
+		vEnvSet("acceptRace", vBool("acceptedJustBeforeClose"))
 		vEnvAcceptCall(func() { v.goStop() })
 		vEnvAccept(nc)
 		v.goRun()
